@@ -382,6 +382,11 @@ def run(prop, tier, replay, t0):
 
         # 1. saved inputs: regression inputs must pass (known findings are re-run and printed by run_fuzzer)
         v_fuzz.run_saved_inputs(prop, fzbin, wd, out, findings, extra_env=env)
+        if out.violations:
+            # a regression input fails: that is the verdict, no search is needed to find a failing input
+            out.notes.append("regression inputs fail: the fuzzing campaign was not started")
+            out.samples.append("regression input: " + os.path.basename(out.violations[0][0]))
+            return vlib.finish(prop, tier, "exploration", out, RULE, t0, ASSUMPTIONS)
 
         # known findings that are hangs: their replay needs the full 60 s limit of run_input, so they are confirmed in
         # the background while the campaign runs (the class is excluded in the target through VERIF_KNOWN)
